@@ -45,6 +45,8 @@ struct TokenParser {
     nesting: usize,
     /// Upper bound of `nesting + height of the sub-tree built so far` at this level.
     nesting_mark: usize,
+    /// The SET item list being parsed continues in a further SET clause (see `parse_set`).
+    set_continuation: bool,
 }
 
 impl TokenParser {
@@ -94,6 +96,7 @@ impl TokenParser {
             duplicated_steps: 0,
             nesting: 0,
             nesting_mark: 0,
+            set_continuation: false,
         }
     }
 
@@ -237,6 +240,10 @@ impl TokenParser {
 
     fn parse_clause_unnested(&mut self) -> Result<Option<Clause>, Error> {
         self.ensure_budget()?;
+        if self.set_continuation {
+            self.set_continuation = false;
+            return Ok(Some(Clause::Set(self.parse_set()?)));
+        }
         // Ignore optional trailing semicolons.
         if self.match_token(&TokenType::Semicolon) {
             return Ok(None);
@@ -417,11 +424,19 @@ impl TokenParser {
             if self.match_token(&TokenType::Create) {
                 self.consume(&TokenType::Set, "Expected SET after ON CREATE")?;
                 subclauses.on_create.push(self.parse_set()?);
+                while self.set_continuation {
+                    self.set_continuation = false;
+                    subclauses.on_create.push(self.parse_set()?);
+                }
                 continue;
             }
             if self.match_token(&TokenType::Match) {
                 self.consume(&TokenType::Set, "Expected SET after ON MATCH")?;
                 subclauses.on_match.push(self.parse_set()?);
+                while self.set_continuation {
+                    self.set_continuation = false;
+                    subclauses.on_match.push(self.parse_set()?);
+                }
                 continue;
             }
             return Err(Error::Other(
@@ -562,8 +577,26 @@ impl TokenParser {
         let mut map_items = Vec::new();
         let mut labels = Vec::new();
 
+        // SET items take effect from left to right. A `SetClause` applies its property items,
+        // then its map items, then its label items, so an item of an earlier group that
+        // follows an item of a later group starts a new clause (picked up by the caller).
+        let mut group = 0u8;
         loop {
+            let item_start = self.position;
             let variable = self.parse_set_target_variable()?;
+            let item_group = if self.check(&TokenType::Dot) {
+                0
+            } else if self.check(&TokenType::Colon) {
+                2
+            } else {
+                1
+            };
+            if item_group < group {
+                self.position = item_start;
+                self.set_continuation = true;
+                break;
+            }
+            group = item_group;
             if self.match_token(&TokenType::Dot) {
                 let property = self.parse_identifier("property name")?;
                 self.consume(&TokenType::Equals, "Expected '=' in SET clause")?;
